@@ -13,6 +13,8 @@ for f in sorted(glob.glob("/verif/seeded/*/meta.json")):
             if "monitor=" in l:
                 mons.append(l.split("monitor=")[1].split(" ")[0])
     conf = "yes" if all(c.get(k) for k in ("applies", "builds", "demo_pass_clean", "demo_fail_patched")) else "partly"
+    if m["id"].startswith("revert-"):
+        conf = "revert of the fix commit(s): applies, builds" if c.get("applies") and c.get("builds") else "does not apply"
     suite = {True: "pass", False: "flaky pkg/cli/cmd (see meta)", None: "n/a"}.get(c.get("suite_pass"))
     rows.append("| %s | %s | %s | %s | %s | %s |" % (m["id"], (m.get("summary") or "")[:150].replace("|", "/"), conf, suite,
                  ", ".join(det) if det else "**not reported**", ", ".join(sorted(set(mons)))[:120]))
